@@ -222,6 +222,15 @@ def replay_events(o, evs, jitter, rng, tags):
             variants.append(("far", far_variant(name, ev["inputs"], rng)))
             for _ in range(jitter):
                 variants.append(("jittered", jittered(name, ev["inputs"], rng)))
+            # special values of the scalar inputs, one at a time (exact zero, exact one: where branches, shortcuts and early returns
+            # live); points where the component's outputs are not finite are not admissible and are dropped below
+            for k_, v_ in ev["inputs"].items():
+                if v_.size == 1:
+                    for sv in (0.0, 1.0):
+                        if float(np.ravel(v_)[0]) != sv:
+                            x_ = dict(ev["inputs"])
+                            x_[k_] = np.full(v_.shape, sv)
+                            variants.append(("special:%s=%g" % (k_, sv), x_))
         variants.append(("captured", ev["inputs"]))
         q = None
         for kind, inputs in variants:
@@ -239,6 +248,9 @@ def replay_events(o, evs, jitter, rng, tags):
                 q = None
                 continue  # a perturbed input the component legitimately cannot take (e.g. singular matrix)
             c = q.model.c
+            if kind.startswith("special") and not all(np.all(np.isfinite(np.asarray(c._outputs[k_]))) for k_ in c._outputs):
+                o.count("special_points_not_finite")
+                continue
             rtol = 1e-6
             fd_step = None
             if "fd" in getattr(c, "_approx_schemes", {}):
@@ -248,7 +260,7 @@ def replay_events(o, evs, jitter, rng, tags):
             nin = sum(v.size for v in inputs.values())
             fd = diff.fd_jacobian(q, skip=skip if kind == "captured" else None, max_cols=None if nin <= 1200 else 400, rng=rng)
             xs = {k: float(np.abs(v).max()) if np.abs(v).max() > 0 else 1.0 for k, v in inputs.items()}
-            diff.compare(o, fam, rep, fd, name, tags=tags + [kind] + opt_tags(ev), rtol=rtol, xscale=xs, fd_step=fd_step,
+            diff.compare(o, fam, rep, fd, name, tags=tags + [kind.split(":")[0]] + ([kind] if ":" in kind else []) + opt_tags(ev), rtol=rtol, xscale=xs, fd_step=fd_step,
                          yscale={k: float(np.abs(np.asarray(c._outputs[k])).max()) for k in c._outputs})
             o.count("replays")
             o.count("jacobian_entries_decided", int(sum((np.isfinite(e[0]) & np.isfinite(e[1])).sum() for e in fd.values())))
